@@ -19,6 +19,7 @@ import (
 	"fmt"
 	"image/color"
 	"runtime/debug"
+	"strings"
 	"testing"
 	"unsafe"
 
@@ -28,6 +29,13 @@ import (
 	"github.com/ProjectSerenity/firefly/kernel/multiboot"
 	"github.com/ProjectSerenity/firefly/kernel/zzverif/vlib"
 )
+
+// c19EmptyGrids adds consoles whose grid has no cell at all (narrower than a
+// glyph / lower than logo + one glyph row). The statement's clamping has no
+// target there; the only reading is "no cell exists, so nothing may change and
+// nothing outside the framebuffer may be touched". Signatures of this facet
+// carry the prefix "emptygrid-".
+const c19EmptyGrids = true
 
 const (
 	c19ArenaSize = 8 << 20
@@ -362,6 +370,19 @@ func (m *c19Mach) describe(op string) string {
 // already in m.mdl and reports every disagreement.
 func (m *c19Mach) exec(x *c19Ctx, opClass, opDesc string, f func()) (clean bool) {
 	run, c := x.run, x.c
+	if m.g.cols == 0 || m.g.rows == 0 {
+		// a console too small for a single cell: every operation must leave
+		// the buffer alone
+		switch {
+		case strings.HasPrefix(opClass, "fill"):
+			opClass = "emptygrid-fill"
+		case strings.HasPrefix(opClass, "write"):
+			opClass = "emptygrid-write"
+		default:
+			opClass = "emptygrid-scroll"
+		}
+		x.count(m.drv+"_ops_on_empty_grid", 1)
+	}
 	pv, stack := vlib.Protect(f)
 	clean = true
 	if pv != nil {
@@ -440,7 +461,7 @@ func (m *c19Mach) doFill(x *c19Ctx, seed uint64, fx, fy, fw, fh uint32, fg, bg u
 		cls = "fill-wrap32"
 		x.count(m.drv+"_fill_extent_beyond_32bit", 1)
 	}
-	if x.fillWrapDefect[m.drv] && fi.wrapH && (fi.wrapW || fw == 0) {
+	if x.fillWrapDefect[m.drv] && fi.wrapH && (fi.wrapW || fw == 0 || m.g.cols == 0) {
 		// On a tree with the 32-bit clipping defect this call spins through
 		// ~2^32 empty iterations; the defect itself is reported by the singly
 		// wrapping calls. Nothing is skipped on a repaired tree.
@@ -517,6 +538,13 @@ func c19RandomSpec(r *vlib.Rand, idx int, thorough bool) c19Spec {
 		s.text = true
 		s.cols = r.PickInt([]int{1, 2, 3, 40, 80, 132, r.Range(1, 132), r.Range(1, 20)})
 		s.rows = r.PickInt([]int{1, 2, 25, 50, 60, r.Range(1, 60), r.Range(1, 12)})
+		if c19EmptyGrids && r.Chance(1, 16) {
+			if r.Bool() {
+				s.cols = 0
+			} else {
+				s.rows = 0
+			}
+		}
 		return s
 	}
 	s.bpp = r.PickInt([]int{8, 15, 16, 24, 32})
@@ -547,12 +575,24 @@ func c19RandomSpec(r *vlib.Rand, idx int, thorough bool) c19Spec {
 	if r.Bool() {
 		s.remY = r.Intn(s.gh)
 	}
+	if c19EmptyGrids && r.Chance(1, 16) {
+		// a framebuffer narrower than one glyph, or with less than one glyph
+		// row below the logo
+		if r.Bool() {
+			s.cols, s.remX = 0, r.Range(1, s.gw-1)
+		} else {
+			s.rows, s.remY = 0, r.Range(1, s.gh)-1
+		}
+	}
 	s.pad = r.PickInt([]int{0, 0, 1, 3, 64, r.Intn(33)})
 	if r.Chance(3, 5) {
 		s.logoH = r.PickInt([]int{1, 2, s.gh, s.gh + 1, r.Range(1, 40), r.Range(1, 40)})
 		w := s.cols*s.gw + s.remX
 		s.logoW = r.Range(1, w)
 		s.logoAlign = logo.Alignment(r.Intn(3))
+	}
+	if s.rows == 0 && s.remY == 0 && s.logoH == 0 { // keep at least one pixel row
+		s.logoH, s.logoW = r.Range(1, 8), 1
 	}
 	return s
 }
@@ -591,7 +631,7 @@ func TestVerifC19(t *testing.T) {
 	defect := c19ProbeFillWrap()
 	for _, d := range []string{"vga", "fb8", "fb16", "fb24"} {
 		if defect[d] {
-			run.Note("Fill 32-bit clipping defect present in " + d + ": fills whose height wraps while the width wraps or is 0 are not executed (2^32 loop iterations)")
+			run.Note("Fill 32-bit clipping defect present in " + d + ": fills whose height wraps while the width wraps, is 0 or the grid has no column are not executed (2^32 loop iterations)")
 		}
 	}
 
@@ -618,7 +658,7 @@ func TestVerifC19(t *testing.T) {
 		ops(x, m, r)
 	}
 
-	n := run.N(480, 40000)
+	n := run.N(2000, 160000)
 	run.Cases(n, func(c *vlib.Case) {
 		spec := c19RandomSpec(c.R, c.Idx, run.Thorough())
 		runCase(c, spec, func(x *c19Ctx, m *c19Mach, r *vlib.Rand) {
